@@ -186,7 +186,29 @@ def run_case(ctx, i, rng):
                           {"disk": disk, "server": got})
             return res
         nnotif = rng.randint(1, 12)
+        saved = disk
         for _ in range(nnotif):
+            if not astral and rng.random() < 0.15:
+                # session boundary: save, or close without saving (the buffer is discarded) and open again: the document is what is on disk
+                if rng.random() < 0.4:
+                    ws.write(name, client)
+                    srv.did_save(uri)
+                    saved = client
+                    history.append({"event": "save", "text": client})
+                    res.kind("event:save")
+                else:
+                    srv.did_close(uri)
+                    srv.did_open(uri, saved)
+                    client = saved
+                    history.append({"event": "close-reopen"})
+                    res.kind("event:close-without-saving-then-open")
+                res.count("evaluations")
+                got = srv.lines_of(path)
+                if got != lines_of(client):
+                    res.violation("session:buffer-differs-after-" + history[-1]["event"], f"after {history[-1]['event']} the server holds {len(got or [])} lines, the client {len(lines_of(client))}",
+                                  {"file": name, "initial": disk, "history": history, "incremental": incremental})
+                    return res
+                continue
             changes = []
             work = client
             nch = 1 if not incremental else rng.choice([1, 1, 1, 2, 3])
@@ -302,8 +324,21 @@ def replay(ctx, w):
         srv.initialize(ws.root)
         uri, path = ws.uri(w["file"]), ws.path(w["file"])
         srv.did_open(uri, w["initial"])
-        client = w["initial"]
+        client = saved = w["initial"]
         for n, changes in enumerate(w["history"]):
+            if isinstance(changes, dict):
+                if changes["event"] == "save":
+                    ws.write(w["file"], client)
+                    srv.did_save(uri)
+                    saved = client
+                else:
+                    srv.did_close(uri)
+                    srv.did_open(uri, saved)
+                    client = saved
+                if srv.lines_of(path) != lines_of(client):
+                    res.violation("session:buffer-differs-after-" + changes["event"], f"after event {n + 1}", w)
+                    break
+                continue
             for ch in changes:
                 client = apply_ref(client, ch)
             srv.did_change(uri, changes)
